@@ -16,7 +16,6 @@ pub mod oneshot {
 #[verifier::external_body] pub struct SubscriptionReceiver { _p: u8 }
 #[verifier::external_body] pub struct SubscriptionSender { _p: u8 }
 #[verifier::external_body] pub struct BoxError { _p: u8 }
-#[verifier::external_body] pub struct EmptyBatchRequest { _p: u8 }
 pub use std::sync::Arc;
 
 // key model: derived Hash/Eq of jsonrpsee's id types, of Range<u64> and of String are structural and deterministic
@@ -38,7 +37,7 @@ pub type FxHashMap<K, V> = HashMap<K, V>;
 // ---- foreign: serde_json RawValue, http Extensions, jsonrpsee ErrorObject (opaque here) ----
 #[verifier::external_body] pub struct RawValue { _p: u8 }
 impl ToOwned for RawValue { type Owned = Box<RawValue>; #[verifier::external_body] fn to_owned(&self) -> Box<RawValue> { unimplemented!() } }
-impl Clone for Box<RawValue> { #[verifier::external_body] fn clone(&self) -> Self { unimplemented!() } }
+impl Clone for Box<RawValue> { #[verifier::external_body] fn clone(&self) -> (r: Self) ensures r == *self { unimplemented!() } }
 impl RawValue {
     pub uninterp spec fn text(&self) -> Seq<char>;
     #[verifier::external_body] pub fn get(&self) -> (r: &str) ensures r@ == self.text() { unimplemented!() }
@@ -66,6 +65,15 @@ pub mod serde_json {
     pub uninterp spec fn parse<T>(s: Seq<char>) -> Result<T, Error>;
     #[verifier::external_body]
     pub fn from_str<'a, T>(s: &'a str) -> (r: Result<T, Error>) ensures r == parse::<T>(s@) { unimplemented!() }
+    // serde_json::from_slice: same parser on bytes; from_str(s) is from_slice on the bytes of s
+    pub uninterp spec fn parse_bytes<T>(b: Seq<u8>) -> Result<T, Error>;
+    pub uninterp spec fn str_bytes(s: Seq<char>) -> Seq<u8>;
+    #[verifier::external_body]
+    pub fn from_slice<'a, T>(b: &'a [u8]) -> (r: Result<T, Error>) ensures r == parse_bytes::<T>(b@) { unimplemented!() }
+    #[verifier::external_body]
+    pub broadcast proof fn axiom_from_str_is_from_slice<T>(s: Seq<char>)
+        ensures #[trigger] parse::<T>(s) == parse_bytes::<T>(str_bytes(s)),
+    {}
     pub uninterp spec fn json_of<T>(v: T) -> Seq<char>;
     #[verifier::external_body]
     pub fn to_string<T>(v: &T) -> (r: Result<String, Error>) ensures r is Ok ==> r->Ok_0@ == json_of(*v) { unimplemented!() }
